@@ -551,7 +551,8 @@ func leakedSince(base map[int]string) (n int, what []string) {
 // runServerScenario: one engine life with cfg.conns scripted connections.
 func runServerScenario(t *testing.T, rec *recorder, cfg *sysCfg, seed uint64, scratch string, rep *vsup.Report) {
 	rng := vsup.NewRng(seed)
-	rec.emit("Reset", "cfg", cfg.String(), "et", cfg.et, "loops", cfg.loops, "reuseport", cfg.reuseport, "ticker", cfg.ticker, "seed", int(seed%1000000))
+	rec.emit("Reset", "cfg", cfg.String(), "et", cfg.et, "loops", cfg.loops, "reuseport", cfg.reuseport, "ticker", cfg.ticker, "seed", int(seed%1000000),
+		"lb", []string{"rr", "lc", "hash"}[int(cfg.lb)%3])
 	h := &vhandler{rec: rec, cfg: cfg, booted: make(chan struct{}), raceMode: rec.muted}
 	var addr, dial string
 	if cfg.network == "unix" {
@@ -1027,6 +1028,12 @@ func sysConfigs(rng *vsup.Rng, thorough bool) []*sysCfg {
 			cfg.multi = rng.Intn(3) == 0
 			if cfg.multi {
 				cfg.reuseport = false // (a unix listener among them: the engine turns SO_REUSEPORT off)
+			}
+			if os.Getenv("VERIF_FORCE_LB") == "rr" {
+				// C15: every life balances Round-Robin through the single acceptor of a reactor-mode engine, half of
+				// them over several listeners
+				cfg.lb, cfg.reuseport, cfg.loops = RoundRobin, false, 2+rng.Intn(3)
+				cfg.multi = len(out)%2 == 0
 			}
 			cfg.name = fmt.Sprintf("%s-%s", network, mode)
 			cfg.flood = (network == "tcp" && mode == "ET") || (network == "unix" && mode == "LT") || rng.Intn(4) == 0
